@@ -25,6 +25,8 @@ structure State where
   queue : List (UInt64 × Entry × Req) := []
   /-- `[ecs] client_networks` -/
   nets : List Prefix := []
+  /-- forwarder route: the forwarder restores the client's CD on every reply -/
+  fwd : Bool := false
 
 /-! ### parsing -/
 
@@ -336,14 +338,12 @@ def stepPipe (s : State) (w : List String) : State × String :=
   | ["pipe", "new", e] => ({ ecs := e == "on" }, "ok")
   | "pipe" :: "new" :: e :: cfg :: more =>
     let nets : Option (List Prefix) :=
-      match more with
-      | [] => some []
-      | [t] => if t.startsWith "nets=" then
-                 (((t.drop 5).toString.splitOn ";").mapM parseScope).map fun l => l.filterMap id
-               else none
-      | _ => none
+      match more.find? (·.startsWith "nets=") with
+      | none => some []
+      | some t => (((t.drop 5).toString.splitOn ";").mapM parseScope).map fun l => l.filterMap id
     match parsePolicy cfg, nets with
-    | some (pol, pf), some nets => ({ ecs := e == "on", policy := pol, prefetchOn := pf, nets := nets }, "ok")
+    | some (pol, pf), some nets =>
+      ({ ecs := e == "on", policy := pol, prefetchOn := pf, nets := nets, fwd := more.contains "fwd" }, "ok")
     | _, _ => (s, "bad-op")
   | ["pipe", "age", idn] =>
     match idn.toNat? with
@@ -370,7 +370,7 @@ def stepPipe (s : State) (w : List String) : State × String :=
   | "pipe" :: "ask" :: route :: ids :: cl :: idn :: sb :: more =>
     match parseIdent ids, parseScope cl, idn.toNat? with
     | some i, some client, some id =>
-      let flip := more.contains "flipcd"
+      let flip := more.contains "flipcd" && !s.fwd
       let rq : Option (Bytes × UInt16 × UInt16) :=
         (more.find? (·.startsWith "rq=")).bind fun t =>
           (parseIdent (t.drop 3).toString).bind fun i => i.name.presentation.map fun p => (p, i.qtype, i.qclass)
